@@ -624,7 +624,7 @@ func main() {
 		}
 	}
 	// ---- two model switches read off server/db.go (syntactic): does the wake-up pass look at the wait-when-unlock flag,
-	// does LockDB.Lock consult the wait queue before admitting a newcomer on a free key
+	// does LockDB.Lock consult the wait queue before accepting a newcomer on a free key
 	fmt.Fprintln(w, "\n(* ---- engine switches (server/db.go), derived syntactically *)")
 	srv, serr := load(filepath.Join(*repo, "server"))
 	if serr != nil || srv.funcs["LockDB.wakeUpWaitLocks"] == nil || srv.funcs["LockDB.Lock"] == nil {
@@ -644,7 +644,7 @@ func main() {
 		}
 		fmt.Fprintf(w, "(* LockDB.wakeUpWaitLocks mentions TIMEOUT_FLAG_LOCK_WAIT_WHEN_UNLOCK *)\nDefinition wake_pass_rechecks_wait_when_unlock : bool := %v.\n",
 			mentions(srv.funcs["LockDB.wakeUpWaitLocks"], "TIMEOUT_FLAG_LOCK_WAIT_WHEN_UNLOCK"))
-		fmt.Fprintf(w, "(* LockDB.Lock calls GetWaitLock (looks at the queue head before admitting a newcomer) *)\nDefinition lock_newcomer_checks_wait_queue : bool := %v.\n",
+		fmt.Fprintf(w, "(* LockDB.Lock calls GetWaitLock (looks at the queue head before accepting a newcomer) *)\nDefinition lock_newcomer_checks_wait_queue : bool := %v.\n",
 			mentions(srv.funcs["LockDB.Lock"], "GetWaitLock"))
 		// ---- the waiter branches of doTimeOut / cancelWaitLock (a queued request leaves the queue without being served):
 		// the key's `waited` flag may be cleared only when GetWaitLock() finds no live waiter, and a wake-up pass follows
